@@ -188,8 +188,12 @@ class TyGen:
         if h == "stale-var-type":
             return [("as", x, ("f", 1.5)), ("if", [("lt", ("i", 1), ("i", 0))], [[("as", x, ("i", 1))]], None), ("as", x + "y", ("v", x)), ("wr", x + "y")]
         if h == "branch-order":
-            a, b = (("i", 1), ("f", 2.5)) if r.random() < 0.5 else (("f", 2.5), ("i", 1))
-            return [("if", [cond], [[("as", x, a)]], [("as", x, b)]), ("wr", x)]
+            # both orders of the two arm types x both arms executed: four names
+            T_, F_ = ("lt", ("i", 0), ("i", 1)), ("lt", ("i", 1), ("i", 0))
+            out = []
+            for j, (a, b, c) in enumerate([(("i", 1), ("f", 2.5), T_), (("i", 1), ("f", 2.5), F_), (("f", 2.5), ("i", 1), T_), (("f", 2.5), ("i", 1), F_)]):
+                out += [("if", [c], [[("as", f"{x}o{j}", a)]], [("as", f"{x}o{j}", b)]), ("wr", f"{x}o{j}")]
+            return out
         if h == "loop-last-wins":
             return [("for", self.fresh("k"), 2, [("as", x, ("i", 1)), ("as", x, ("add", ("v", x), ("f", 0.5)))]), ("wr", x)]
         if h == "tuple-retype":
